@@ -18,14 +18,14 @@ type Violation struct {
 // away from a still-enabled thread; select-arm, permutation and environment
 // choices are free).
 type Explorer struct {
-	Bound   int // max preemptions per execution; <0 = unbounded
+	Bound int // max preemptions per execution; <0 = unbounded
 	// FreeBound, when > 0, additionally bounds the number of non-default
 	// choices among enabled threads at points where the running thread blocked
 	// or exited (switches that cost no preemption). 0 = unlimited.
 	FreeBound int
-	Permute bool
-	Clock   int64
-	StepCap int
+	Permute   bool
+	Clock     int64
+	StepCap   int
 	// Body runs as thread 0 of every execution and returns an outcome
 	// signature (what the harness observed), used to count distinct outcomes.
 	Body func() string
